@@ -1894,12 +1894,19 @@ func (s *ScopedKeyManager) RenameAccount(ns walletdb.ReadWriteBucket,
 		return managerError(ErrDatabase, str, nil)
 	}
 
-	// Update in-memory account info with new name if cached and the db
-	// write was successful.
+	// Update in-memory account info with the new name if cached, once the
+	// db write has been committed. Since the closure will be called when
+	// the DB transaction gets committed, we won't be holding the manager's
+	// mutex anymore at that point and must acquire it again.
 	if err == nil {
-		if acctInfo, ok := s.acctInfo[account]; ok {
-			acctInfo.acctName = name
-		}
+		ns.Tx().OnCommit(func() {
+			s.mtx.Lock()
+			defer s.mtx.Unlock()
+
+			if acctInfo, ok := s.acctInfo[account]; ok {
+				acctInfo.acctName = name
+			}
+		})
 	}
 
 	return err
